@@ -13,6 +13,10 @@ import (
 	"github.com/irismod/service/types"
 )
 
+// maxAmount is the exclusive upper bound of an amount carried by a message: 10^57 < 2^192, so that
+// amount * int64 stays below the 2^255 limit of sdk.Int
+var maxAmount = sdk.NewIntWithDecimal(1, 57)
+
 // AddServiceBinding creates a new service binding
 func (k Keeper) AddServiceBinding(
 	ctx sdk.Context,
@@ -459,6 +463,11 @@ func (k Keeper) ParsePricing(ctx sdk.Context, pricing string) (p types.Pricing, 
 	priceCoin, err := ft.ToMinCoin(token)
 	if err != nil {
 		return p, sdkerrors.Wrapf(types.ErrInvalidPricing, "invalid price: %s", err.Error())
+	}
+
+	// the price is multiplied by the minimum deposit multiple (an int64); keep the product within the range of sdk.Int
+	if priceCoin.Amount.GTE(maxAmount) {
+		return p, sdkerrors.Wrapf(types.ErrInvalidPricing, "invalid price: %s is too large", priceCoin)
 	}
 
 	if priceCoin.IsZero() {
